@@ -121,6 +121,42 @@ func c16Oracle(w *World, ds *DSetup) *Violation {
 			resp, _ = parse(h.RespBody)
 		}
 		targetWrites, targetApplied := 0, 0
+		// (attachments) what the answer lists without a namespace belongs to the target's
+		// namespace, whichever hook answered and whatever else the answer says: an
+		// attachment is created there and nowhere else, and an attachment the answer
+		// lists is not deleted (unless its strategy re-creates)
+		listed := map[string]bool{}
+		for _, a := range getList(resp, "attachments") {
+			if ao, ok := a.(map[string]interface{}); ok {
+				ns := mstr(ao, "namespace")
+				if ns == "" {
+					ns = mstr(obj, "namespace")
+				}
+				listed[getStr(ao, "kind")+"|"+ns+"|"+mstr(ao, "name")] = true
+			}
+		}
+		for _, q := range sy.Reqs {
+			if resp == nil || !q.IsWrite() || q.Res == nil || !accepted(q) || q.Arrival < h.Arrival {
+				continue
+			}
+			rule := cfg.AttachmentRule(q.Res)
+			if rule == nil {
+				continue
+			}
+			if q.Verb == "create" && q.Res.Namespaced && mstr(obj, "namespace") != "" && q.NS != mstr(obj, "namespace") {
+				if v := report(&Violation{Prop: "C16", Class: "attachment-created-outside-the-target-namespace", Sig: ds.Sig, Step: q.Step,
+					Detail: fmt.Sprintf("%s: %s", where, q.Short())}); v != nil {
+					return v
+				}
+			}
+			if q.Verb == "delete" && listed[q.Res.Kind+"|"+q.NS+"|"+q.Name] && rule.Method != "Recreate" && rule.Method != "RollingRecreate" {
+				w.Probe("c16:listed-attachment-deleted")
+				if v := report(&Violation{Prop: "C16", Class: "listed-attachment-deleted", Sig: ds.Sig, Step: q.Step,
+					Detail: fmt.Sprintf("%s: the answer lists %s %s/%s, yet %s was sent (strategy %q)", where, q.Res.Kind, q.NS, q.Name, q.Short(), rule.Method)}); v != nil {
+					return v
+				}
+			}
+		}
 		for _, q := range sy.Reqs {
 			if !q.IsWrite() || q.Res == nil {
 				continue
@@ -286,7 +322,7 @@ func c16Oracle(w *World, ds *DSetup) *Violation {
 func C16Scenario() *Scenario {
 	return &Scenario{Prop: "C16", Init: func(w *World) {
 		t := w.T
-		ds := NewDecoratorSetup(w, DGenOpts{MaxDecorators: 2, PlainOwner: true, ResyncOnce: true})
+		ds := NewDecoratorSetup(w, DGenOpts{MaxDecorators: 2, PlainOwner: true, ResyncOnce: true, Keep: true})
 		b := &EnvBudget{Left: 4 + t.Pick(8, "envbudget")}
 		var discoveryGVs []string
 		if t.Pick(4, "discovery") == 3 {
